@@ -101,7 +101,7 @@ def model_specs(tier, seed):
     want = {"optimal": 5, "infeasible": 2, "unbounded": 2} if tier == "quick" else {"optimal": 30, "infeasible": 8, "unbounded": 8}
     specs = [["hand", h] for h in HAND]
     if tier != "quick":
-        specs += [["shipped", "textbook"], ["shipped", "mini"]]
+        specs += [["shipped", "textbook"]]
     got = {k: 0 for k in want}
     k = seed * 10000
     while any(got[c] < want[c] for c in want) and k < seed * 10000 + 3000:
